@@ -159,6 +159,17 @@ func (e *Exec) ratBin(op token.Token, x, y Value) Value {
 		}
 		return e.ratFinish(f.Sub(an, bn), l, inex)
 	case token.MUL:
+		if a.Scaled != nil || b.Scaled != nil {
+			sc, other := a, y
+			if a.Scaled == nil {
+				sc, other = b, x
+			}
+			if c, ok := other.(float64); ok && c == 1e10 {
+				e.note("float step of FromGeomOrd abstracted: harness quantifies over its integer result (verifFloatOfInt1e10)")
+				return &Rat{Num: sc.Scaled, Den: big.NewInt(1)}
+			}
+			e.unsupported("abstract geom ordinate used other than in x * 1e10")
+		}
 		return e.ratFinish(f.Mul(a.Num, b.Num), new(big.Int).Mul(a.Den, b.Den), inex)
 	case token.QUO:
 		if !b.Num.IsConst() {
